@@ -309,12 +309,17 @@ async fn handle_stream_append(
         }
     };
 
-    let meta = match parts
+    let meta_header = match parts
         .headers
         .get("xs-meta")
         .map(|x| x.to_str())
         .transpose()
-        .unwrap()
+    {
+        Ok(header) => header,
+        Err(e) => return response_400(format!("xs-meta isn't a valid header value: {}", e)),
+    };
+
+    let meta = match meta_header
         .map(|s| {
             // First decode the Base64-encoded string
             base64::prelude::BASE64_STANDARD
